@@ -1,5 +1,6 @@
 //! Drivers: each one runs the real code on generated inputs and writes trace batches.
 
+pub mod bytecode;
 pub mod vmops;
 pub mod vmprog;
 
@@ -10,6 +11,7 @@ use std::io::Write;
 pub fn dispatch(driver: &str, args: &Args) -> i32 {
     match driver {
         "vmops" => vmops::main(args),
+        "bytecode" => bytecode::main(args),
         "vmprog" => vmprog::main(args),
         _ => {
             eprintln!("unknown driver {driver}");
